@@ -85,7 +85,12 @@ class C05(Prop):
                   "handle_connection_error(H3_STREAM_CREATION_ERROR)) is a driver step of the model (DOp.bidi) covered by all "
                   "of the above, and in every reachable state it ends the poll with the error already in the cell if there is "
                   "one, else the transport's, else 0x0103, closed exactly closeOf(winner); Drop for server::Connection "
-                  "(close(H3_NO_ERROR), unconditional) appends one call and never changes the first close call (reading R-05)")
+                  "(close(H3_NO_ERROR), unconditional) appends one call and never changes the first close call (reading R-05); "
+                  "the shutdown() check is a step of the small-step machine (DOp.shut = check_connection_error, enabled while the "
+                  "driver is not inside a poll, so every forall-schedule theorem ranges over histories with shutdown calls) that is "
+                  "Setup.checkError on every state (C05_shutdown_step_is_the_check), and the plan of the whole-connection model "
+                  "flt5 (handled alone) is the plan made from cell AND handled on every state a connection without request "
+                  "handles can reach (C05_shutdownPlan_is_the_check)")
     level_note = ("trusted: Lean kernel + 3 standard axioms; the model is tied to the code by executing every interleaving (at the "
                   "granularity of the pre-emption hooks) of driver polls with 1..3 raising handles on the real SharedState/"
                   "ConnectionInner of a real server::Connection over the in-memory transport, OS threads parked at the hooks; "
@@ -105,7 +110,19 @@ class C05(Prop):
             "is judged by H3.Spec.Faults (one outcome, reported by every later driver call incl. shutdown, close exactly for "
             "locally detected errors, once, with that code), plus (faults.drop_cases) the application dropping the driver "
             "before / between / after the calls that meet the error, every error source x both roles x grease on/off: the "
-            "first close is judged as before, the Drop's close(H3_NO_ERROR) is accepted once behind the drop (R-05); non-trivial = some error was raised and the line is not "
+            "first close is judged as before, the Drop's close(H3_NO_ERROR) is accepted once behind the drop (R-05); label D.shut "
+            "(engine cell: the real shutdown() of server::Connection / client::Connection in modes acc/clo/idl, "
+            "check_connection_error in mode pce) in every interleaving with 1..2 handles' store/wake, alone, behind a parked "
+            "poll, in front of a poll, and in the random histories; the cell oracle admits only `reported and closed` once "
+            "every driver call made behind the winner must have reported (a shutdown call, or a complete poll_connection_error "
+            "call of a poll that began behind the winner's store); engine hnd5 (tools/props/handles.py): whole connections "
+            "over SimQuic in which a REAL request handle detects the error (resolve_request / recv_response on a request "
+            "stream carrying DATA before HEADERS, SETTINGS, a frame cut by the end of the stream, a HEADERS frame QPACK "
+            "cannot decode; a pending read meeting the transport's timeout / close), merged in every order (all merges up to "
+            "60, else 60 random; thorough 400) with accept / wait_idle / shutdown / send_request and a second handle that is "
+            "healthy or poisoned with another error, judged by H3.Drv.Hnd.verdict; `cell dg`: the datagram handle of "
+            "h3-datagram on the real code (finding D-05g); flt5 histories with a token outside the oracle's alphabet are "
+            "refused (bad:unknown-token), never `ok`; non-trivial = some error was raised and the line is not "
             "bad-op/bad-flow/panic")
     trusted = ["futures_util::task::AtomicWaker and std::sync::OnceLock are linearizable with their documented semantics "
                "(register stores the waker, wake takes and wakes it, get_or_init stores at most once)",
@@ -140,7 +157,15 @@ class C05(Prop):
                    "the QUIC connection), strictly; the close(H3_NO_ERROR) that Drop for server::Connection adds when the "
                    "application drops the driver is accepted once, only behind `<task>.D=ok` (engine flt5, "
                    "faults.drop_cases); a close made by nobody but the driver is demanded only once a driver call has met the "
-                   "error"]
+                   "error",
+                   "engine hnd5: what the bytes on a request stream make the handle detect is a table over the generator's "
+                   "pool on the model side (the frame layer is C02/C03's subject; a wrong entry is a correspondence difference) "
+                   "and the RFC's rule on the oracle side (RFC 9114 4.1, 7.1, 7.2.4; RFC 9204 2.2.3); within one op's segment the "
+                   "request handles' answers are compared as a sorted list (the order in which the executor polls tasks woken "
+                   "together is not modelled), close calls and the driver's answers in their order",
+                   "the datagram handle (h3-datagram DatagramSender) counts as a handle of C05: it is a ConnectionState "
+                   "implementor bound to a request stream id, usable from any task, and writes the connection's error cell "
+                   "through set_conn_error_and_wake like every request handle; its report is judged like theirs (finding D-05g)"]
 
     # ---------------------------------------------------------------- cases
 
